@@ -18,10 +18,6 @@ import (
 	"github.com/apache/arrow-go/v18/arrow/memory"
 )
 
-// epochUTC is the Unix epoch interpreted as UTC; used to derive Arrow
-// date32 / time64 / timestamp values from Go time.Time.
-var epochUTC = time.Date(1970, 1, 1, 0, 0, 0, 0, time.UTC)
-
 // asTime converts value to a time.Time, accepting either a plain time.Time
 // or a named type whose underlying type is time.Time (so handlers can
 // declare a typed alias that implements AnnotatedReturn).
@@ -87,10 +83,22 @@ func asBytes(value any) ([]byte, bool) {
 	return nil, false
 }
 
-// daysSinceEpoch returns the number of full UTC days between t and the
+// daysSinceEpoch returns the UTC calendar day of t as a day count from the
 // Unix epoch — the Arrow date32 wire encoding.
+//
+// This is floor division on Unix seconds. Dividing t.Sub(epoch) instead goes
+// wrong twice: Go division truncates toward zero, so an instant before 1970
+// with a time of day (1969-12-31T12:00Z) landed on the following day (0, not
+// -1), and Sub saturates at ±292 years, so every date outside 1677..2262 —
+// year 1 and year 9999 included — encoded as day ∓106751.
 func daysSinceEpoch(t time.Time) int32 {
-	return int32(t.UTC().Sub(epochUTC) / (24 * time.Hour))
+	const secondsPerDay = 24 * 60 * 60
+	sec := t.Unix()
+	days := sec / secondsPerDay
+	if sec%secondsPerDay < 0 {
+		days--
+	}
+	return int32(days)
 }
 
 // microsSinceMidnight returns the wall-clock microsecond offset of t
